@@ -504,6 +504,8 @@ def run(repo='/repo', tier='quick'):
             res.check(nonext, 'C07.n', '%s:output-hand-over@%s' % (f.name, v['name'] + '#' + str(nh)), 'on the `no next layer` arm',
                       'the output buffer is handed to the data callback without a test for a next layer: with two content codings the second decompressor never sees these bytes and they are delivered still compressed', c['loc'])
     res.floor('C07.n', 'hand-overs of the output buffer to the callback', nh, 3)
+    c07o(db, res)
+    c07p(db, res)
     return res
 
 
@@ -596,3 +598,66 @@ def explore_dead(f, state0, classes, gz):
             rec(s_, -1, st, nf, depth + 1)
     rec(f.entry, -1, state0, [], 0)
     return found
+
+
+def c07o(db, res):
+    """"No more decompression layers are applied than configured" includes zero: with the LZMA layer limit (or its memory limit)
+    set to 0 no LZMA decoder is ever set up. The slow path of the Content-Encoding loop has its own limit test, but the
+    single-coding fast path relies on the constructor - so the constructor's own test is the one that holds for every path."""
+    res.rule('C07.o', 'an LZMA decoder is set up only when LZMA is enabled: every LzmaDec_Construct call is on the true edges of lzma_memlimit > 0 and response_lzma_layer_limit > 0')
+    n = 0
+    for name, f in sorted(db.fn.items()):
+        if not f.blocks:
+            continue
+        if f.loc.startswith('htp/lzma/'):
+            continue                                       # the SDK's own one-call interface (LzmaDecode) is not used by the library
+        # LzmaDec_Construct is a macro of the SDK (two stores); a function of that name is accepted as well
+        sites = [(b, i, c) for b, i, c in f.calls('LzmaDec_Construct')]
+        seen_b = set()
+        for b, i, st in f.stmts():
+            if b not in seen_b and any(y.get('macro') == 'LzmaDec_Construct' for y in nodes(st, lambda y: y.get('k') == 'assign')):
+                seen_b.add(b)
+                sites.append((b, i, st))
+        for b, i, c in sites:
+            n += 1
+            facts = [a for a, e in P.facts_at(f, b)]
+            mem = any(a[0].endswith('lzma_memlimit') and ((a[1] == '>' and a[2] == '0') or (a[1] == '!=' and a[2] == '0')) for a in facts)
+            lay = any(a[0].endswith('response_lzma_layer_limit') and ((a[1] == '>' and a[2] == '0') or (a[1] == '!=' and a[2] == '0')) for a in facts)
+            missing = [w for w, ok in (('lzma_memlimit > 0', mem), ('response_lzma_layer_limit > 0', lay)) if not ok]
+            res.check(not missing, 'C07.o', '%s:LzmaDec_Construct:enabled' % name, 'under both limits',
+                      '%s sets up an LZMA decoder without testing %s: a response with Content-Encoding: lzma is decoded although the configuration allows no LZMA layer (the limit test of the Content-Encoding loop is only on its multi-token path)' % (name, ' and '.join(missing)), c['loc'])
+    res.floor('C07.o', 'LZMA decoder set-ups', n, 1)
+
+
+def c07p(db, res):
+    """The Content-Encoding list is cut into tokens at any ONE of the separator characters (", "). The separators are a set of
+    characters, compared one by one; handed to a string function they become a needle, "gzip,gzip" is a single token and one
+    layer of the body is never undone."""
+    res.rule('C07.p', 'the token scanner treats its separators as a set of characters: in get_token the separator parameter is only read character by character (dereference / subscript); it is never passed to a function')
+    f = db.get('get_token')
+    seps = [p['name'] for p in f.params if 'char' in p['t'] and 'const' in p['t'] and p['name'] not in ('in',)]
+    seps = [p for p in seps if p != f.params[0]['name']]
+    if not seps:
+        raise AnalysisBroken('get_token has no separator parameter')
+    sp = seps[0]
+    reads = 0
+    bad = None
+    aliases = {sp}
+    for b, i, st in f.stmts():
+        for d in nodes(st, lambda y: y.get('k') == 'decl'):
+            for v in d['vars']:
+                if v.get('init') is not None and strip(v['init']).get('k') == 'var' and strip(v['init'])['name'] in aliases:
+                    aliases.add(v['name'])
+    for b, i, st in list(f.stmts()) + [(b_, -1, f.cond_of(b_)[0]) for b_ in f.blocks if f.cond_of(b_)]:
+        for c in nodes(st, lambda y: y.get('k') == 'call'):
+            if c.get('callee') in ('fprintf', 'fprint_raw_data'):
+                continue
+            for a in c.get('args') or []:
+                if any(strip(v).get('name') in aliases for v in nodes(a, lambda y: y.get('k') == 'var')):
+                    bad = c
+        for u in nodes(st, lambda y: (y.get('k') == 'un' and y['op'] == '*') or y.get('k') == 'index'):
+            tgt = strip(u['e']) if u.get('k') == 'un' else strip(u['base'])
+            if tgt.get('k') == 'var' and tgt['name'] in aliases:
+                reads += 1
+    res.check(bad is None and reads > 0, 'C07.p', 'get_token:separators-are-a-set', '%s is read character by character at %d places and never handed to a function' % (sp, reads),
+              'get_token hands its separator set `%s` to %s(): as a string it is matched as a whole, so a list written with a single separator character ("gzip,gzip") is one token and the second coding is never undone' % (sp, (bad or {}).get('callee')), (bad or {}).get('loc', f.loc))
